@@ -19,12 +19,14 @@ LEVEL = 'exploration'
 ATOMS5 = ['C', 'C?', 'C.', 'H', 'O?']
 ATOMS3 = ['C?', 'C.', 'H']
 EXTRA_MOLS = ['CCC', 'C=CC', '[CH2]C[CH2]', 'C1CC1', 'CCO', '[H][H]', '[H]',
-              'C#CC', '[CH2]C=C', 'OCC=O']
+              'C#CC', '[CH2]C=C', 'OCC=O', '[CH]=[CH]', '[CH2][CH]C[C]=[CH]',
+              '[CH]=[C]C[CH][CH2]', '[C]#[C]']
 BOUND = {
-    'quick': 'patterns: 5 one-atom, 50 two-atom, 108 three-atom chains; edit '
+    'quick': 'patterns: 5 one-atom, 50 two-atom (+8 with bonds of unspecified order), 108 three-atom chains; edit '
              'sequences: all of length <= 2 over the full edit alphabet, all of '
              'length 3 over the six basic edits; molecules M(2) C/O with '
-             'radicals + 10',
+             'radicals + 14; two-reactant rules: 3 x 3 patterns, all edit '
+             'sequences of length <= 3 over the basic edits, 8 x 8 molecule pairs',
     'thorough': 'as quick with length-3 sequences over the full alphabet for '
                 '1-2 atom patterns, length 4 over the basic edits, triple bonds '
                 'and 4-atom chains; molecules M(3) C/O with radicals + 10'}
@@ -57,7 +59,9 @@ MANIFEST = dict(
          'product set per reference match, equal (as a multiset of canonical '
          'SMILES) to the reference edit applier, conserving the atoms of every '
          'element.',
-    note='Bimolecular rules, charge and atom-type edits are outside the bound.',
+    note='Two-reactant rules only over a 3x3 pattern alphabet with edit '
+         'sequences up to length 3; charge and atom-type edits are outside '
+         'the bound.',
     ref='5/C16')
 
 
@@ -68,6 +72,10 @@ def patterns(tier):
     kinds = ['single', 'double'] + (['triple'] if tier == 'thorough' else [])
     for a, b in itertools.product(ATOMS5, repeat=2):
         for k in kinds:
+            out.append([(a, None), (b, (k, 0))])
+    # pattern bonds of unspecified order between (radical) carbons
+    for a, b in itertools.product(['C.', 'C?'], repeat=2):
+        for k in ('any', 'nonring'):
             out.append([(a, None), (b, (k, 0))])
     for a, b, c in itertools.product(ATOMS3, repeat=3):
         for k1, k2 in itertools.product(['single', 'double'], repeat=2):
@@ -93,11 +101,11 @@ def edit_alphabet(atoms, full):
             if full:
                 E += [('break', i, j, 'single'), ('break', j, i, 'double'),
                       ('modify', i, j, 'single'), ('modify', i, j, 'double'),
-                      ('modify', j, i, 'triple')]
+                      ('modify', j, i, 'triple'), ('modify', i, j, 'aromatic')]
         else:
             E += [('form', i, j, None)]
             if full:
-                E += [('form', j, i, 'double')]
+                E += [('form', j, i, 'double'), ('form', i, j, 'aromatic')]
     return E
 
 
@@ -218,12 +226,131 @@ def judge_rule(R, atoms, seq, tier, mols=None):
                        gotp if isinstance(gotp, str) else gotp[:3]), w2)
 
 
+# ---------------------------------------------------------------- two reactants
+
+R1S = [[('C.', None)], [('O.', None)], [('C?', None), ('H', ('single', 0))]]
+R2S = [[('C.', None)], [('H.', None)], [('C?', None), ('H', ('single', 0))]]
+BI_MOLS = ['[CH3]', '[OH]', '[H]', 'C', 'CC', 'C[CH2]', 'C[O]', 'O']
+
+
+def bi_text(a1, a2, seq):
+    lab = lambda i: 'a%d' % i      # noqa
+    n1 = len(a1)
+    p1 = ruleref.pattern_text(a1, lab)
+    p2 = ruleref.pattern_text([(sp, None if b is None else (b[0], b[1] + n1))
+                               for sp, b in a2], lambda i: 'a%d' % (i + n1))
+    # pattern_text numbers r2's atoms from n1 on, and its bond references too
+    p2 = ' '.join('%s labeled a%d%s' % (sp, k + n1, '' if b is None else
+                                        ' %s bond to a%d' % (b[0], b[1] + n1))
+                  for k, (sp, b) in enumerate(a2))
+    return 'rule b{ reactant r1{ %s } reactant r2{ %s } %s }' % (
+        p1, p2, ' '.join(ruleref.edit_text(e, lab) for e in seq))
+
+
+def bi_sequences(atoms):
+    n = len(atoms)
+    bonds, _ = ruleref.pattern_tables(atoms)
+    E = []
+    for i in range(n):
+        E += [('radinc', i), ('raddec', i)]
+    for i, j in itertools.combinations(range(n), 2):
+        if (i, j) in bonds:
+            E += [('break', i, j, None), ('dec', i, j)]
+        else:
+            E += [('form', i, j, None)]
+    for L in (1, 2, 3):
+        for seq in itertools.product(E, repeat=L):
+            yield seq
+
+
+def judge_bi(R, a1, a2, seq, only_pair=None):
+    from rdkit import Chem
+    from pgradd.RINGParser import Read
+    from pgradd.Error import RINGReaderError
+    n1 = len(a1)
+    atoms = list(a1) + [(sp, None if b is None else (b[0], b[1] + n1)) for sp, b in a2]
+    status, balanced = ruleref.analyse(atoms, seq)
+    R.evals += 1
+    if status != 'judged':
+        R.outcomes['bi:unjudged'] += 1
+        return
+    # a bond edit other than 'form' across the two reactants is a documented refusal
+    text = bi_text(a1, a2, seq)
+    wit = dict(kind='bi', a1=[list(x) if x[1] is None else [x[0], list(x[1])] for x in a1],
+               a2=[list(x) if x[1] is None else [x[0], list(x[1])] for x in a2],
+               seq=[list(e) for e in seq], pair=None)
+    try:
+        q = Read(text)
+        got = 'rule'
+    except RINGReaderError:
+        got = 'RINGReaderError'
+    except Exception as e:     # noqa
+        got = 'EXC:' + type(e).__name__
+    R.nontrivial += 1
+    sig = ','.join(sorted(set(e[0] for e in seq)))
+    if not balanced:
+        R.outcomes['bi:unbalanced:' + got] += 1
+        if got != 'RINGReaderError':
+            R.violation('bi-read:unbalanced-%s:%s' % (got, sig), '%r is unbalanced; Read gave %s'
+                        % (text, got), wit)
+        return
+    R.outcomes['bi:balanced:' + got] += 1
+    if got != 'rule':
+        R.violation('bi-read:balanced-%s:%s' % (got, sig), '%r is balanced; Read gave %s'
+                    % (text, got), wit)
+        return
+    f1 = ringref.parse_fragment(ruleref.fragment_text(a1))
+    f2 = ringref.parse_fragment(ruleref.fragment_text(a2))
+    for s1 in BI_MOLS:
+        for s2 in BI_MOLS:
+            if only_pair is not None and [s1, s2] != only_pair:
+                continue
+            m1, m2 = Chem.MolFromSmiles(s1), Chem.MolFromSmiles(s2)
+            h1, h2 = Chem.AddHs(m1), Chem.AddHs(m2)
+            comb = Chem.CombineMols(h1, h2)
+            off = h1.GetNumAtoms()
+            exp = []
+            for x in ringref.ref_matches_g(f1, ringref.G(h1)):
+                for y in ringref.ref_matches_g(f2, ringref.G(h2)):
+                    exp.append(ruleref.apply_edits(comb, list(x) + [v + off for v in y], seq))
+            exp.sort()
+            R.evals += 1
+            if exp:
+                R.nontrivial += 1
+            try:
+                res = q.RunReactants((Chem.Mol(m1), Chem.Mol(m2)))
+                gotp = sorted(ruleref.product_key(ps) for ps in res)
+            except Exception as e:      # noqa
+                gotp = 'EXC:%s' % type(e).__name__
+            if gotp == exp:
+                R.outcomes['bi-run:same:%s' % ('products' if exp else 'no-match')] += 1
+                if exp:
+                    R.sample(dict(rule=text, molecules=[s1, s2], product_sets=exp[:1]), limit=1)
+                continue
+            R.outcomes['bi-run:differs'] += 1
+            R.violation('bi-run:%s:%s' % ('EXC' if isinstance(gotp, str) else 'products', sig),
+                        '%r on (%s, %s): reference %r; implementation %r' % (
+                            text, s1, s2, exp[:2], gotp if isinstance(gotp, str) else gotp[:2]),
+                        dict(wit, pair=[s1, s2]))
+
+
 def shards(tier, seed):
-    return [('pat', i) for i in range(len(patterns(tier)))]
+    out = [('pat', i) for i in range(len(patterns(tier)))]
+    for i in range(len(R1S)):
+        for j in range(len(R2S)):
+            out.append(('bi', i, j))
+    return out
 
 
 def run_shard(shard, tier):
     R = Result()
+    if shard[0] == 'bi':
+        a1, a2 = R1S[shard[1]], R2S[shard[2]]
+        n1 = len(a1)
+        atoms = list(a1) + [(sp, None if b is None else (b[0], b[1] + n1)) for sp, b in a2]
+        for seq in bi_sequences(atoms):
+            judge_bi(R, a1, a2, seq)
+        return R
     atoms = patterns(tier)[shard[1]]
     for seq in sequences(atoms, tier):
         judge_rule(R, atoms, seq, tier)
@@ -235,6 +362,11 @@ def run_shard(shard, tier):
 def replay(w):
     from rdkit import Chem
     R = Result()
+    if w['kind'] == 'bi':
+        conv = lambda L: [(a[0], None if a[1] is None else (a[1][0], a[1][1])) for a in L]   # noqa
+        judge_bi(R, conv(w['a1']), conv(w['a2']), [tuple(e) for e in w['seq']], w.get('pair'))
+        return dict(violates=bool(R.violations),
+                    detail='\n'.join(v['msg'] for v in R.violations) or 'holds')
     atoms = [(a[0], None if a[1] is None else (a[1][0], a[1][1])) for a in w['atoms']]
     seq = [tuple(e) for e in w['seq']]
     mols = None
